@@ -1,5 +1,6 @@
 import H2T.Lemmas.WrapInv
 import H2T.Lemmas.PreVerbatim
+import H2T.Lemmas.PreElement
 
 /-! # C12 — preformatted text keeps its lines and spacing
 
@@ -14,9 +15,12 @@ width is emitted line for line, each output line being the expansion minus trail
 only.  (The proof attempt found a genuine defect, repaired by `fix:` 33c7307: a word consisting only of zero-width
 characters was not flushed at the whitespace after it, so the invariant "line ++ pending blanks ++ word = expansion"
 failed; two related corners — such a word at the start of a line in normal mode, and a `<br>` after a line holding
-only such characters — are known findings.)  That the sub-renderer feeds a `<pre>` element's text to the machine as such
-lines (the newline directly after `<pre>` dropped by the HTML parser, `<br>` as a hard line break) is decided by
-correspondence and an independent reference in the harness.
+only such characters — are known findings.)  **End to end** (`Lemmas/PreElement`): the render tree of a `<pre>` element
+holding one text (`pre_element_reproduced`), and the whole pipeline on the DOM html5ever builds for `<pre>text</pre>` without
+style sheets (`pre_document_reproduced`: style computation, tree building, the sub-renderer's `add_inline_text`, `into_lines`),
+return exactly one text line per source line — the expansion minus trailing blanks, every cell tagged `Preformat(false)`.
+Texts with other inline structure inside `<pre>` (`<br>`, nested elements) are decided by correspondence and an independent
+reference in the harness.
 The property's claim about continuation tags is *refuted* for the unchanged code (a known finding): the
 continuation tag starts at the character where a word first exceeds the line, not at the start of the
 continuation piece. -/
@@ -87,5 +91,31 @@ theorem fresh_block_preinv (tag : Tag) (w : Nat) (ov : Bool) : PreInv tag ({ wid
 example : tabN 3 = 5 ∧ tabN 8 = 8 ∧ tabN 0 = 8 := by decide
 /-- non-vacuity: "a<TAB>b" expands to `a`, seven blanks, `b` -/
 example : (expandGo [] [] [mkCh 97, ⟨9, 0, true, true⟩, mkCh 98]).length = 9 := by decide
+
+/-! ## end to end -/
+
+/-- **a `<pre>` element whose lines fit is reproduced line for line by the renderer** (render-tree level: sub-renderer,
+    block start, `add_inline_text` in `pre` mode with the `Preformat` tag, `into_lines`) -/
+theorem pre_element_reproduced (cfg : Cfg) (d : Deco) (w : Nat) (hw : 0 < w) (hww : cfg.wrapWidth = none) (hpad : cfg.padBlocks = false)
+    (nl : Ch) (hnl : nl.cp = 10) (hws : nl.ws = true) (ls : List (List Ch))
+    (hfit : ∀ l ∈ ls, (∀ c ∈ l, c.cp ≠ 10) ∧ lw (expandGo [d.annOf (Ann.pre false)] [] l) ≤ w) :
+    ∃ Ls : List TLine,
+      renderTree cfg d w (.box { ws := some .pre, pre := true } .block [.text {} (ls.flatMap (· ++ [nl]))]) = .ok (Ls.map RLine.text) ∧
+      Ls.length = ls.length ∧
+      ∀ i (_ : i < ls.length) (_ : i < Ls.length), ∃ k,
+        expandGo [d.annOf (Ann.pre false)] [] ls[i] = Ls[i] ++ List.replicate k (spc [d.annOf (Ann.pre false)]) :=
+  renderTree_pre_text cfg d w hw hww hpad nl hnl hws ls hfit
+
+/-- **…and by the whole pipeline** on the document `<pre>text</pre>` as parsed (no style sheets, `decorate` off) -/
+theorem pre_document_reproduced (cfg : Cfg) (d : Deco) (w : Nat) (hw : 0 < w) (hdec : cfg.decorate = false) (hww : cfg.wrapWidth = none)
+    (hpad : cfg.padBlocks = false) (ci : CharInfo) (depth : Nat)
+    (nl : Ch) (hnl : nl.cp = 10) (hws : nl.ws = true) (ls : List (List Ch))
+    (hfit : ∀ l ∈ ls, (∀ c ∈ l, c.cp ≠ 10) ∧ lw (expandGo [d.annOf (Ann.pre false)] [] l) ≤ w) :
+    ∃ Ls : List TLine,
+      renderDom cfg d w false none none ci depth (preDoc (ls.flatMap (· ++ [nl]))) = .lines (Ls.map RLine.text) ∧
+      Ls.length = ls.length ∧
+      ∀ i (_ : i < ls.length) (_ : i < Ls.length), ∃ k,
+        expandGo [d.annOf (Ann.pre false)] [] ls[i] = Ls[i] ++ List.replicate k (spc [d.annOf (Ann.pre false)]) :=
+  renderDom_preDoc cfg d w hw hdec hww hpad ci depth nl hnl hws ls hfit
 
 end H2T.C12
